@@ -180,10 +180,9 @@ def gen(tier, rng, pre):
                 for ln in sorted(lens):
                     yield J(pre + 'img_new', bpp, alt, w, h, ln)
                 yield J(pre + 'img_pixels', bpp, alt, w, h, exact, rng.randrange(2 ** 30))
-                if pre == '':
-                    # new_const: the exact length, and a wrong one (caught panic)
-                    yield J('img_new_const', bpp, alt, w, h, exact, rng.randrange(2 ** 30))
-                    yield J('img_new_const', bpp, alt, w, h, rng.choice([exact + 1, max(exact - 1, 0), exact + stride(w, bpp)]), 1)
+                # new_const: the exact length, and a wrong one (caught panic)
+                yield J(pre + 'img_new_const', bpp, alt, w, h, exact, rng.randrange(2 ** 30))
+                yield J(pre + 'img_new_const', bpp, alt, w, h, rng.choice([exact + 1, exact + 2, exact + 1 + stride(w, bpp)]), 1)
                 for _ in range(reps):
                     yield draw_case(rng, pre, bpp, alt, w, h, 0)
                     yield draw_case(rng, pre, bpp, alt, w, h, 1, tk=2)
